@@ -118,8 +118,8 @@ Theorem intkey_refuted :
 Proof. split; [vm_compute; reflexivity|]. eexists. split; [vm_compute; reflexivity | vm_compute; reflexivity]. Qed.
 
 Definition E_same := mkEnv
-  [mkC "P1" "P" [mkF "v" "v" TInt false true None false None] false false; mkC "P2" "P" [mkF "v" "v" TStr false true None false None] false false;
-   mkC "HP" "HP" [mkF "a" "a" (TData "P1") false true None false None; mkF "b" "b" (TData "P2") false true None false None] false false] [] [] [].
+  [mkC "P1" "P" [mkF "v" "v" TInt false true None false None false] false false; mkC "P2" "P" [mkF "v" "v" TStr false true None false None false] false false;
+   mkC "HP" "HP" [mkF "a" "a" (TData "P1") false true None false None false; mkF "b" "b" (TData "P2") false true None false None false] false false] [] [] [].
 Definition doc_same := JObj [("a", JObj [("v", JInt 1)]); ("b", JObj [("v", JStr "s")])].
 Theorem shared_defs_refuted :
   enc_ok 9 E_same false false (TData "HP") (VObj [("a", VObj [("v", VInt 1)]); ("b", VObj [("v", VStr "s")])]) doc_same = true /\
@@ -140,7 +140,7 @@ Theorem set_collision_refuted :
             jvalid pm_any [] 50 s (JArr [JStr "2020-01-01"; JStr "2020-01-01"]) = false.
 Proof. split; [vm_compute; reflexivity|]. eexists. split; [vm_compute; reflexivity | vm_compute; reflexivity]. Qed.
 
-Definition E_init := mkEnv [mkC "B" "B" [mkF "n" "n" TInt true false None false None] false false] [] [] [].
+Definition E_init := mkEnv [mkC "B" "B" [mkF "n" "n" TInt true false None false None false] false false] [] [] [].
 Theorem init_false_refuted :
   enc_ok 5 E_init false false (TData "B") (VObj [("n", VInt 5)]) (JObj [("n", JInt 5)]) = true /\
   exists s, schema_f E_init dl2020 false false 5 (TData "B") = Some s /\ jvalid pm_any [] 50 s (JObj [("n", JInt 5)]) = false.
@@ -149,9 +149,9 @@ Proof. split; [vm_compute; reflexivity|]. eexists. split; [vm_compute; reflexivi
 (* non-vacuity witness for the soundness theorem: a dataclass with an alias, a default,
    a nested class, an optional, a list and a str-keyed dict *)
 Definition E_nv := mkEnv
-  [mkC "A" "A" [mkF "x" "xx" TInt false true None false None; mkF "y" "y" (TUnion [TStr; TNone]) true true None false None] false false;
-   mkC "H" "H" [mkF "a" "a" (TData "A") false true None false None; mkF "l" "l" (TList false (TLeaf "date")) true true None false None;
-                mkF "d" "d" (TDict TStr (TTuple [(false, TInt); (false, TBool)])) true true None false None] false false] [] [] [].
+  [mkC "A" "A" [mkF "x" "xx" TInt false true None false None false; mkF "y" "y" (TUnion [TStr; TNone]) true true None false None false] false false;
+   mkC "H" "H" [mkF "a" "a" (TData "A") false true None false None false; mkF "l" "l" (TList false (TLeaf "date")) true true None false None false;
+                mkF "d" "d" (TDict TStr (TTuple [(false, TInt); (false, TBool)])) true true None false None false] false false] [] [] [].
 Definition v_nv := VObj [("a", VObj [("x", VInt 1); ("y", VNone)]); ("l", VList [VLeaf "2020-01-01"]);
                          ("d", VDict [(VStr "k", VList [VInt 2; VBool true])])].
 Definition j_nv := JObj [("a", JObj [("xx", JInt 1); ("y", JNull)]); ("l", JArr [JStr "2020-01-01"]);
@@ -164,12 +164,12 @@ Proof.
 Qed.
 
 (* ---- named tuples as dicts / field override / omit_none ---- *)
-Definition NT_P := mkC "P" "P" [mkF "a" "a" TInt false true None false None; mkF "b" "b" (TUnion [TStr; TNone]) true true None false None] false false.
-Definition NT_Q := mkC "Q" "Q" [mkF "l" "l" (TList false (TNamed "P")) false true None false None] false false.
+Definition NT_P := mkC "P" "P" [mkF "a" "a" TInt false true None false None false; mkF "b" "b" (TUnion [TStr; TNone]) true true None false None false] false false.
+Definition NT_Q := mkC "Q" "Q" [mkF "l" "l" (TList false (TNamed "P")) false true None false None false] false false.
 
 (* KF schema-nt-override-in-containers: q: Q = field(metadata={"serialize": "as_dict"}), Q.l: List[P]:
    the serializer forgets the override inside the list ([[1, null]]), the schema does not *)
-Definition E_ovc := mkEnv [mkC "A" "A" [mkF "q" "q" (TNamed "Q") false true (Some true) false None] false false] [] [NT_P; NT_Q] [].
+Definition E_ovc := mkEnv [mkC "A" "A" [mkF "q" "q" (TNamed "Q") false true (Some true) false None false] false false] [] [NT_P; NT_Q] [].
 Definition v_ovc := VObj [("q", VList [VList [VList [VInt 1; VNone]]])].
 Definition j_ovc := JObj [("q", JObj [("l", JArr [JArr [JInt 1; JNull]])])].
 Theorem nt_override_container_refuted :
@@ -179,7 +179,7 @@ Proof. split; [vm_compute; reflexivity|]. eexists. split; [vm_compute; reflexivi
 
 (* fixed in /repo a5aab21 (was KF schema-omit-none-required): x: Optional[int] without default in a class with
    omit_none: the key is dropped for None and is not required *)
-Definition E_omit := mkEnv [mkC "A" "A" [mkF "x" "x" (TUnion [TInt; TNone]) false true None false None] false true] [] [] [].
+Definition E_omit := mkEnv [mkC "A" "A" [mkF "x" "x" (TUnion [TInt; TNone]) false true None false None false] false true] [] [] [].
 Theorem omit_none_required_example :
   ty_ok 5 E_omit false false (TData "A") = true /\
   enc_ok 5 E_omit false false (TData "A") (VObj [("x", VNone)]) (JObj []) = true /\
@@ -196,12 +196,12 @@ Qed.
      z: Optional[int] (no default: dropped when None, hence not required)
      y: Optional[str] = None, w: Literal[1, None] = None (nullable by "default is None": dropped when None) *)
 Definition E_nv2 := mkEnv
-  [mkC "S" "S" [mkF "p" "p" (TNamed "P") false true None false None; mkF "o" "o" (TNamed "P") false true (Some false) false None;
-                mkF "t" "t" (TList true (TNamed "P")) false true None false None;
-                mkF "a" "a" (TList false (TUnion [TInt; TNone])) false true None false None;
-                mkF "z" "z" (TUnion [TInt; TNone]) false true None false None;
-                mkF "y" "y" (TUnion [TStr; TNone]) true true None true None;
-                mkF "w" "w" (TLit [JInt 1; JNull]) true true None true None] true true] [] [NT_P] [].
+  [mkC "S" "S" [mkF "p" "p" (TNamed "P") false true None false None false; mkF "o" "o" (TNamed "P") false true (Some false) false None false;
+                mkF "t" "t" (TList true (TNamed "P")) false true None false None false;
+                mkF "a" "a" (TList false (TUnion [TInt; TNone])) false true None false None false;
+                mkF "z" "z" (TUnion [TInt; TNone]) false true None false None false;
+                mkF "y" "y" (TUnion [TStr; TNone]) true true None true None false;
+                mkF "w" "w" (TLit [JInt 1; JNull]) true true None true None false] true true] [] [NT_P] [].
 Definition v_nv2 := VObj [("p", VList [VInt 1; VNone]); ("o", VList [VInt 2; VStr "s"]); ("t", VList [VList [VInt 3; VNone]]);
                           ("a", VList [VInt 1; VNone]); ("z", VNone); ("y", VNone); ("w", VRaw JNull)].
 Definition j_nv2 := JObj [("p", JObj [("a", JInt 1); ("b", JNull)]); ("o", JArr [JInt 2; JStr "s"]);
@@ -252,7 +252,7 @@ Qed.
 (* ---- overridden serialization (round 5) ---- *)
 (* KF schema-overridden-nullable: x: Optional[int] = field(metadata={"serialize": f}), f -> str: None passes through,
    the schema is {"type": "string"} *)
-Definition E_ovn := mkEnv [mkC "A" "A" [mkF "x" "x" (TUnion [TInt; TNone]) false true None false (Some TStr)] false false] [] [] [].
+Definition E_ovn := mkEnv [mkC "A" "A" [mkF "x" "x" (TUnion [TInt; TNone]) false true None false (Some TStr) false] false false] [] [] [].
 Theorem overridden_nullable_refuted :
   enc_ok 5 E_ovn false false (TData "A") (VObj [("x", VNone)]) (JObj [("x", JNull)]) = true /\
   exists s, schema_f E_ovn dl2020 false false 5 (TData "A") = Some s /\ jvalid pm_any [] 50 s (JObj [("x", JNull)]) = false.
@@ -260,9 +260,9 @@ Proof. split; [vm_compute; reflexivity|]. eexists. split; [vm_compute; reflexivi
 
 (* non-vacuity: non-nullable fields with an overridden serializer (field option or a serialization_strategy entry):
    the members are what the functions return, the schema describes the return annotations *)
-Definition E_ov := mkEnv [mkC "S" "S" [mkF "l" "l" (TList false TInt) false true None false (Some TStr);
-                                        mkF "d" "d" (TDict TStr TInt) true true None false (Some TInt);
-                                        mkF "p" "p" TBool false true None false None] false false] [] [] [].
+Definition E_ov := mkEnv [mkC "S" "S" [mkF "l" "l" (TList false TInt) false true None false (Some TStr) false;
+                                        mkF "d" "d" (TDict TStr TInt) true true None false (Some TInt) false;
+                                        mkF "p" "p" TBool false true None false None false] false false] [] [] [].
 Lemma nonvacuous_override :
   env_ok E_ov = true /\ ty_ok 9 E_ov false false (TData "S") = true /\
   enc_ok 9 E_ov false false (TData "S") (VObj [("l", VStr "1,2"); ("d", VInt 7); ("p", VBool true)])
@@ -273,4 +273,63 @@ Lemma nonvacuous_override :
 Proof.
   split; [vm_compute; reflexivity|]. split; [vm_compute; reflexivity|]. split; [vm_compute; reflexivity|].
   eexists. split; [vm_compute; reflexivity | split; [vm_compute; reflexivity | vm_compute; reflexivity]].
+Qed.
+
+(* ---- fields declared as a bare type variable of a generic dataclass (round 6; /repo 4da7e9e) ---- *)
+(* class G(Generic[T]) with Config.omit_none:  gv: T   o: Optional[T]   l: List[T]
+   in the specialisation G[t] (a class of its own in the model; bare name G) *)
+Definition G_spec (id: string) (t: ty) : cls :=
+  mkC id "G" [mkF "gv" "gv" t false true None false None true;
+              mkF "o" "o" (TUnion [t; TNone]) false true None false None false;
+              mkF "l" "l" (TList false t) false true None false None false] false true.
+Definition E_tvo := mkEnv [G_spec "G[Optional[int]]" (TUnion [TInt; TNone])] [] [] [].
+Definition E_tvi := mkEnv [G_spec "G[int]" TInt] [] [] [].
+(* G[Optional[int]]: gv may hold None, omit_none drops it, the schema does not require it (before 4da7e9e the key was
+   kept and required);  G[int]: gv is required, a document without it is rejected *)
+Lemma typevar_field_example :
+  (env_ok E_tvo = true /\ ty_ok 9 E_tvo false false (TData "G[Optional[int]]") = true /\
+   enc_ok 9 E_tvo false false (TData "G[Optional[int]]") (VObj [("gv", VNone); ("o", VNone); ("l", VList [VNone; VInt 1])])
+          (JObj [("l", JArr [JNull; JInt 1])]) = true /\
+   enc_ok 9 E_tvo false false (TData "G[Optional[int]]") (VObj [("gv", VInt 5); ("o", VInt 6); ("l", VList [])])
+          (JObj [("gv", JInt 5); ("o", JInt 6); ("l", JArr [])]) = true /\
+   exists s, schema_f E_tvo dl2020 false false 9 (TData "G[Optional[int]]") = Some s /\ get_required (kws_of s) = ["l"] /\
+             jvalid pm_any [] 50 s (JObj [("l", JArr [JNull; JInt 1])]) = true /\
+             jvalid pm_any [] 50 s (JObj [("gv", JInt 5); ("o", JInt 6); ("l", JArr [])]) = true) /\
+  (env_ok E_tvi = true /\ ty_ok 9 E_tvi false false (TData "G[int]") = true /\
+   enc_ok 9 E_tvi false false (TData "G[int]") (VObj [("gv", VInt 1); ("o", VNone); ("l", VList [VInt 2])])
+          (JObj [("gv", JInt 1); ("l", JArr [JInt 2])]) = true /\
+   (* None is not a value of `gv: T` in G[int]: no admissible serialization drops the key *)
+   enc_ok 9 E_tvi false false (TData "G[int]") (VObj [("gv", VNone); ("o", VNone); ("l", VList [])]) (JObj [("l", JArr [])]) = false /\
+   exists s, schema_f E_tvi dl2020 false false 9 (TData "G[int]") = Some s /\ get_required (kws_of s) = ["gv"; "l"] /\
+             jvalid pm_any [] 50 s (JObj [("gv", JInt 1); ("l", JArr [JInt 2])]) = true /\
+             jvalid pm_any [] 50 s (JObj [("l", JArr [])]) = false).
+Proof.
+  split.
+  - split; [vm_compute; reflexivity|]. split; [vm_compute; reflexivity|]. split; [vm_compute; reflexivity|].
+    split; [vm_compute; reflexivity|].
+    eexists. split; [vm_compute; reflexivity|]. split; [vm_compute; reflexivity|]. split; vm_compute; reflexivity.
+  - split; [vm_compute; reflexivity|]. split; [vm_compute; reflexivity|]. split; [vm_compute; reflexivity|].
+    split; [vm_compute; reflexivity|].
+    eexists. split; [vm_compute; reflexivity|]. split; [vm_compute; reflexivity|]. split; vm_compute; reflexivity.
+Qed.
+
+(* the schema of a type-variable field is the empty schema, so the field is inside the domain of the soundness theorem
+   whatever the variable is bound to -- even a Flag (whose own schema rejects combined members: C06_flag_refuted) *)
+Definition E_tvf := mkEnv [mkC "G[F]" "G" [mkF "gv" "gv" (TEnum "F") false true None false None true] false false] [] []
+                          [mkE "F" [JInt 1; JInt 2] true].
+Lemma typevar_field_any_binding :
+  env_ok E_tvf = true /\ ty_ok 9 E_tvf false false (TData "G[F]") = true /\ ty_ok 9 E_tvf false false (TEnum "F") = false /\
+  enc_ok 9 E_tvf false false (TData "G[F]") (VObj [("gv", VFlag 3)]) (JObj [("gv", JInt 3)]) = true /\
+  exists s, schema_f E_tvf dl2020 false false 9 (TData "G[F]") = Some s /\ jvalid pm_any [] 50 s (JObj [("gv", JInt 3)]) = true.
+Proof.
+  split; [vm_compute; reflexivity|]. split; [vm_compute; reflexivity|]. split; [vm_compute; reflexivity|].
+  split; [vm_compute; reflexivity|]. eexists. split; vm_compute; reflexivity.
+Qed.
+
+(* `required` of a type-variable field follows the binding: for every class, every such field *)
+Lemma typevar_required_follows_binding : forall (omit: bool) (f: field),
+  f_tv f = true -> f_has_default f = false -> f_dnone f = false ->
+  frequired omit f = negb (omit && nullable (f_ty f)).
+Proof.
+  intros omit f _ Hd Hn. unfold frequired, fnullable. rewrite Hd, Hn, orb_false_r. reflexivity.
 Qed.
